@@ -26,6 +26,7 @@ var propRunners = map[string]func(c *Checker){
 	"C08": runC08,
 	"C09": runC09,
 	"C12": runC12,
+	"C14": runC14,
 }
 
 func runProperty(P *Program, prop, tier, evid string) int {
